@@ -50,9 +50,14 @@ func mustMatcher(prefix, sub, regex string) matcher.Matcher {
 }
 
 func newAgg(t *table.Table, regex, outFmt string) *aggregator.Aggregator {
+	return newAggBuf(t, regex, outFmt, 2000)
+}
+
+// newAggBuf: an aggregation whose inbox holds inBuf points (2000 in production)
+func newAggBuf(t *table.Table, regex, outFmt string, inBuf int) *aggregator.Aggregator {
 	tick := make(chan time.Time)
 	m := mustMatcher("", "", regex)
-	a, err := aggregator.NewMocked("count", m, outFmt, false, 60, 120, false, t.GetIn(), 2000, time.Now, tick)
+	a, err := aggregator.NewMocked("count", m, outFmt, false, 60, 120, false, t.GetIn(), inBuf, time.Now, tick)
 	if err != nil {
 		panic(err)
 	}
@@ -394,6 +399,9 @@ func partB() {
 			bRoutes(n, del)
 			bRewriters(n, del)
 			bAggregators(n, del)
+			if n <= 3 {
+				bAggregatorInboxFull(n, del, (n+del)%3)
+			}
 			for _, kind := range []string{"sendAllMatch", "sendFirstMatch"} {
 				bDestinations(n, del, kind)
 			}
@@ -703,9 +711,11 @@ func bAggregators(n, del int) {
 	d := mon.NewDeltas(ks...)
 	res.LogCase("B aggregators n=%d del=%d", n, del)
 	line := fmt.Sprintf("c18agg%d.v 1 %d", tag, time.Now().Unix())
-	ok, _, _ := interleave("dispatch-after-load", func() { t.Dispatch([]byte(line)) }, func() { quietStdout(func() { t.DelAggregator(del) }) })
+	ok, at, stack := interleave("dispatch-after-load", func() { t.Dispatch([]byte(line)) }, func() { quietStdout(func() { t.DelAggregator(del) }) })
 	res.Eval(1)
 	if !ok {
+		res.Violate("dispatch-wedged:"+at, fmt.Sprintf("%d aggregations, dispatcher held after loading the table snapshot, DelAggregator(%d), released: the dispatcher never returns (parked in %s) - the line is skipped for every later aggregation and every route and the input connection is wedged", n, del, at),
+			map[string]interface{}{"aggregators": n, "deleted": del, "stack": stack})
 		return
 	}
 	// each surviving aggregator processes its inbox asynchronously: wait by bounded steps
@@ -732,6 +742,100 @@ func bAggregators(n, del int) {
 	} else {
 		res.NonTrivial(fmt.Sprintf("B/aggregators/%d/%d", n, del))
 	}
+	for i, a := range aggs {
+		if i != del {
+			a.Shutdown()
+		}
+	}
+}
+
+// bAggregatorInboxFull: the deleted aggregation's inbox has no free slot when the held dispatcher gets to it.
+// In production the inbox has 2000 slots and fills up when points arrive faster than the aggregation takes them
+// in (or when its final flush, which DelAggregator waits for, takes a while under traffic); here the inbox is
+// scaled down to `slots` and `slots`+1 dispatchers hold the previous table, so the last one finds it full. The
+// aggregation's loop has ended by then: whoever waits for a free slot waits forever, unless the hand-off gives up
+// on a removed aggregation. A route that exists before and after must get every one of the lines exactly once.
+func bAggregatorInboxFull(n, del, slots int) {
+	t := mon.NewTable("none", "none", false, "/nonexistent")
+	var aggs []*aggregator.Aggregator
+	tag := u()
+	for i := 0; i < n; i++ {
+		a := newAggBuf(t, fmt.Sprintf("^c18aggf%d\\.", tag), fmt.Sprintf("outf%d.%d", tag, i), slots)
+		aggs = append(aggs, a)
+		t.AddAggregator(a)
+	}
+	cr := mon.NewCaptureRoute(fmt.Sprintf("capf%d", tag), mustMatcher("", "", ""), nil)
+	t.AddRoute(cr)
+	res.LogCase("B aggregator inbox full n=%d del=%d slots=%d", n, del, slots)
+	k := slots + 1
+	mh := &multiHolder{point: "dispatch-after-load", want: int32(k), reached: make(chan struct{}), release: make(chan struct{})}
+	curMulti.Store(mh)
+	table.VerifPoint = multiHook
+	defer func() { curMulti.Store((*multiHolder)(nil)); table.VerifPoint = hookFn }()
+	done := make([]chan struct{}, k)
+	gids := make([]int64, k)
+	var lines []string
+	for i := 0; i < k; i++ {
+		done[i] = make(chan struct{})
+		line := fmt.Sprintf("c18aggf%d.v%d 1 %d", tag, i, time.Now().Unix())
+		lines = append(lines, line)
+		go func(i int, line string) {
+			atomic.StoreInt64(&gids[i], curGID())
+			t.Dispatch([]byte(line))
+			close(done[i])
+		}(i, line)
+	}
+	select {
+	case <-mh.reached:
+	case <-time.After(20 * time.Second):
+		res.Inconclusive("inbox-full scenario: the dispatchers did not reach the hook point")
+		close(mh.release)
+		return
+	}
+	quietStdout(func() { t.DelAggregator(del) })
+	close(mh.release)
+	res.Count("interleavings_forced", 1)
+	res.Eval(1)
+	deadline := time.After(4 * time.Second)
+	wedged := -1
+	for i := 0; i < k && wedged < 0; i++ {
+		select {
+		case <-done[i]:
+		case <-deadline:
+			wedged = i
+		}
+	}
+	if wedged >= 0 {
+		b1 := goroutineBlock(atomic.LoadInt64(&gids[wedged]))
+		time.Sleep(time.Second)
+		select {
+		case <-done[wedged]:
+			res.Inconclusive("inbox-full scenario: dispatcher slow after release")
+			return
+		default:
+		}
+		b2 := goroutineBlock(atomic.LoadInt64(&gids[wedged]))
+		f1, f2 := repoFrame(b1), repoFrame(b2)
+		if f1 != "" && f1 == f2 {
+			res.Violate("dispatch-wedged:"+f1, fmt.Sprintf("%d aggregations with an inbox of %d, %d dispatchers held after loading the table snapshot, DelAggregator(%d), released: a dispatcher never returns (parked in %s, waiting for room in the inbox of an aggregation whose loop has ended) - its line is skipped for every route and the input connection is wedged", n, slots, k, del, f1),
+				map[string]interface{}{"aggregators": n, "deleted": del, "slots": slots, "stack": b2})
+		} else {
+			res.Inconclusive("inbox-full scenario: dispatcher slow after release but not parked at a stable repo frame")
+		}
+		return
+	}
+	got := map[string]int{}
+	for _, l := range cr.Lines() {
+		got[l]++
+	}
+	for _, l := range lines {
+		if got[l] != 1 {
+			res.Violate("stale-dispatch:agg-inbox-full", fmt.Sprintf("%d aggregations with an inbox of %d, %d dispatchers held, DelAggregator(%d), released: the route behind the aggregations got %q %d times (must be once)", n, slots, k, del, l, got[l]),
+				map[string]interface{}{"aggregators": n, "deleted": del, "slots": slots})
+			return
+		}
+	}
+	res.NonTrivial(fmt.Sprintf("B/agg-inbox-full/%d/%d/%d", n, del, slots))
 	for i, a := range aggs {
 		if i != del {
 			a.Shutdown()
